@@ -75,7 +75,7 @@ impl Monitor for C05 {
             Tier::Thorough => 1 + 6 * (2 * SPAN as u64 + 1),
             Tier::Sanitizer => 2,
         };
-        vec![gen("arith", arith), gen("sessions", tier.pick(20_000, 2_000_000, 6)), gen("rx2-override", tier.pick(540, 20_000, 2)), gen("up-counter-exhausted", tier.pick(540, 20_000, 2))]
+        vec![gen("arith", arith), gen("sessions", tier.pick(20_000, 2_000_000, 6)), gen("rx2-override", tier.pick(540, 20_000, 2)), gen("up-counter-exhausted", tier.pick(540, 20_000, 2)), gen("size-boundary", 3 * 9 * 8 * 2 * tier.pick(1, 20, 0))]
     }
     fn rule(&self) -> String {
         "arith: verif_next_fcnt_down(last, wire) for all 2^16 wire values per `last` (quick: stride 97 within +-70000 of each of 6 boundaries plus the 129 values around each and None; thorough: every value within +-70000), compared with the statement's rule in 64-bit arithmetic. sessions: devices (nb/async/async+ClassC, 9 regions) with sessions created at chosen counters receive 40-120 frames (fresh gaps 1/2/16383/16384, 16385+, replay, stale, other-epoch, bit-flip, foreign key, oversized, MAC in FOpts/port 0, confirmed) in RX1/RX2/Class C; after every transaction the accepted counter, response, delivered payloads and MAC answers are compared with a reference acceptance model. Class = (start class, frame class, verdict, window kind, front-end).".into()
@@ -112,6 +112,7 @@ impl Monitor for C05 {
             "sessions" => session_case(idx, rng, col),
             "rx2-override" => rx2_override_case(idx, rng, col),
             "up-counter-exhausted" => exhausted_case(idx, rng, col),
+            "size-boundary" => size_boundary_case(idx, rng, col),
             _ => unreachable!(),
         }
     }
@@ -649,5 +650,71 @@ fn exhausted_case(idx: u64, rng: &mut Prng, col: &mut Collector) {
             return;
         }
         col.event("exhausted_replay_rejected");
+    }
+}
+
+
+/// Maximum MACPayload size M per downlink data rate (RP002, no dwell-time limit, not repeater
+/// compatible): the harness' own table.
+fn max_mac_payload(reg: regions::Reg, dr: u8) -> Option<usize> {
+    use regions::Reg::*;
+    let t: &[(u8, usize)] = match reg {
+        EU868 | EU433 => &[(0, 59), (1, 59), (2, 59), (3, 123), (4, 250), (5, 250), (6, 250)],
+        IN865 => &[(0, 59), (1, 59), (2, 59), (3, 123), (4, 250), (5, 250)],
+        US915 | AU915 => &[(8, 61), (9, 137), (10, 250), (11, 250), (12, 250), (13, 250)],
+        _ => &[(0, 59), (1, 59), (2, 123), (3, 123), (4, 250), (5, 250), (6, 250)], // AS923-1..4
+    };
+    t.iter().find(|x| x.0 == dr).map(|x| x.1)
+}
+
+/// RX2 is moved to each downlink data rate in turn; a frame whose MACPayload is exactly the
+/// regional maximum for that rate must be accepted, one octet more must not.
+fn size_boundary_case(idx: u64, rng: &mut Prng, col: &mut Collector) {
+    let front = FRONTS[(idx % 3) as usize];
+    let reg = regions::ALL[((idx / 3) % 9) as usize];
+    let slot = ((idx / 27) % 8) as u8;
+    let over = (idx / 216) % 2 == 1;
+    let dr = if reg.fixed() { 8 + slot % 6 } else { slot % 7 };
+    let Some(m) = max_mac_payload(reg, dr) else { return };
+    if over && m >= 250 {
+        return; // M + 1 would not fit a 255-octet PHYPayload
+    }
+    let opts = DevOpts { rng_seed: Some(rng.next_u64()), ..Default::default() };
+    let Some(mut link): Option<Link> = Link::abp(front, reg, rng, &opts) else {
+        col.event("harness_session_json_rejected");
+        return;
+    };
+    let (f2, _) = reg.rx2_default();
+    let _ = link.deliver_mac(&rx_param_setup_req(dr, f2 / 100), rng.bool(), rng.bool());
+    if link.dev.snapshot().rx2_data_rate != Some(dr) {
+        col.event("size_boundary_rate_not_taken");
+        return;
+    }
+    let len = if over { m + 1 } else { m };
+    // MACPayload = FHDR (7, no FOpts) + FPort (1) + FRMPayload
+    let payload = rng.bytes(len - 8);
+    let fcnt = link.fdown + 1;
+    let frame = link.net.downlink(&Down { fcnt, port: Some(rng.range(1, 200) as u8), payload: &payload, ..Default::default() });
+    let before = link.dev.fcnt_down();
+    let t = link.txn(&[3], 7, false, &Script::rx2(frame.clone()));
+    if let Resp::Panic(mm, l) = &t.resp {
+        col.violation(&format!("C05|panic|size-boundary|{}", short_loc(l)), "device panicked", json!({"msg": mm, "loc": l}));
+        return;
+    }
+    let after = link.dev.fcnt_down();
+    let delivered = link.dev.take_downlinks();
+    let accepted = matches!(t.resp, Resp::DownlinkReceived(_)) || after != before || !delivered.is_empty();
+    col.eval(&format!("size-boundary|{}|dr{}|{}|{}|{}", reg.name(), dr, if over { "M+1" } else { "M" }, front.name(), t.resp.kind()));
+    let ctx = json!({"region": reg.name(), "front": front.name(), "rx2_data_rate": dr, "regional_max_mac_payload": m, "mac_payload_len": len, "phy_payload_len": frame.len(), "response": format!("{:?}", t.resp), "fcnt_down_before": before, "fcnt_down_after": after});
+    if over {
+        if accepted {
+            col.violation(&format!("C05|size-boundary|accepted-above-maximum|{}|dr{}", reg.name(), dr), "a frame one octet longer than the regional maximum for the data rate it was received at was accepted", ctx);
+        } else {
+            col.event("size_boundary_over_dropped");
+        }
+    } else if !(matches!(t.resp, Resp::DownlinkReceived(_)) && after == Some(Some(fcnt)) && delivered.len() == 1 && delivered[0].1 == payload) {
+        col.violation(&format!("C05|size-boundary|maximum-size-frame-not-accepted|{}|dr{}", reg.name(), dr), "an authentic fresh frame of exactly the regional maximum size for the data rate it was received at was not accepted", ctx);
+    } else {
+        col.event("size_boundary_max_accepted");
     }
 }
